@@ -215,15 +215,15 @@ fn designated(view: &Cluster) -> (Vec<Vec<String>>, Vec<bool>, Vec<Option<(Strin
 }
 
 #[derive(Default)]
-struct Snap {
-    raw_info: String,
-    raw_nodes: String,
-    raw_nodes_after_slots: String,
-    nodes: BTreeMap<usize, String>,
-    slots: BTreeMap<usize, String>,
+pub(crate) struct Snap {
+    pub(crate) raw_info: String,
+    pub(crate) raw_nodes: String,
+    pub(crate) raw_nodes_after_slots: String,
+    pub(crate) nodes: BTreeMap<usize, String>,
+    pub(crate) slots: BTreeMap<usize, String>,
     /// migrating slots according to the proxy's own metadata: slot -> (source proxy, destination proxy)
-    mig: BTreeMap<usize, (String, String)>,
-    problems: Vec<String>,
+    pub(crate) mig: BTreeMap<usize, (String, String)>,
+    pub(crate) problems: Vec<String>,
 }
 
 fn is_range_line(s: &str) -> Option<Vec<(usize, usize)>> {
@@ -241,7 +241,7 @@ fn is_range_line(s: &str) -> Option<Vec<(usize, usize)>> {
     }
 }
 
-async fn take_snap(mon: &mut Client, a: &str) -> Snap {
+pub(crate) async fn take_snap(mon: &mut Client, a: &str) -> Snap {
     let mut snap = Snap::default();
     let info = call(mon, a, &[b"UMCTL", b"INFO"]).await;
     let nodes = call(mon, a, &[b"CLUSTER", b"NODES"]).await;
